@@ -40,9 +40,109 @@ def operands(rng, m, n):
     return sorted(x for x in c if 0 <= x < m)
 
 
+EDGE = [0, 1, 2, 3, 2**62 - 1, 2**62, 2**62 + 1, 2**63 - 1, 2**63, 2**63 + 1, B - 3, B - 2, B - 1]
+HIGH = [B - 1, B - 2, B - 3, 2**63, 2**63 + 1, 2**62]
+
+
+def carry_grid(rng, n, count):
+    """Inputs aimed at the dropped-carry condition: top limb of m exactly at a threshold, a within a few units of m,
+    limbs of b (and the lower limbs of m) near 2^64 so that an intermediate accumulator reaches 2^(64 N).
+    (This is the W=64 image of the small-W counterexamples of algo/Redc.tla, DESIGN.md 8 'symbolic lifting'.)"""
+    out = []
+    tops = [2**63, 2**63 - 1, 2**63 + 1, 2**62, 2**62 - 1, 2**62 + 1, 2**62 - 2, 2**63 - 2]
+    for _ in range(count):
+        top = rng.choice(tops[:4]) if rng.random() < 0.7 else rng.choice(tops)
+        low = [rng.choice(EDGE) for _ in range(n - 1)]
+        if low:
+            low[0] |= 1
+        m = sum(x << (64 * i) for i, x in enumerate(low)) | (top << (64 * (n - 1)))
+        if n == 1:
+            m |= 1
+        if m < 3 or m % 2 == 0:
+            continue
+        a = m - rng.choice([1, 2, 3, 4, 5])
+        bl = [rng.choice(HIGH) if rng.random() < 0.8 else rng.choice(EDGE) for _ in range(n)]
+        b = sum(x << (64 * i) for i, x in enumerate(bl))
+        if rng.random() < 0.5:
+            b &= (1 << (64 * (n - 1))) - 1            # top limb of b zero
+        b %= m
+        if a < 0:
+            continue
+        out.append((m, a, b))
+        out.append((m, b, a))
+    return out
+
+
+def cios_top_carry(a, b, m, n):
+    """Does the CIOS accumulator of mul_redc reach 2^(64 n) in some outer iteration (the carry that the code keeps
+    only above its threshold)?  A plain Python transcription of the textbook CIOS recurrence, used ONLY to aim the
+    generator at the rare carry-set path (it decides nothing)."""
+    M = B - 1
+    inv = (-pow(m, -1, B)) % B
+    al = [(a >> (64 * i)) & M for i in range(n)]
+    ml = [(m >> (64 * i)) & M for i in range(n)]
+    res = [0] * n
+    carry = 0
+    hit = False
+    for j in range(n):
+        bj = (b >> (64 * j)) & M
+        c1 = c2 = 0
+        mm = 0
+        for i in range(n):
+            t = al[i] * bj + res[i] + c1
+            v, c1 = t & M, t >> 64
+            if i == 0:
+                mm = (v * inv) & M
+            t2 = ml[i] * mm + v + c2
+            v2, c2 = t2 & M, t2 >> 64
+            if i > 0:
+                res[i - 1] = v2
+        t = c1 + c2 + carry
+        res[n - 1] = t & M
+        carry = t >> 64
+        hit = hit or carry != 0
+    return hit
+
+
+def aimed_carry_cases(rng, n, per_top, budget):
+    """(m, a, b) with the top limb of m at / next to a threshold AND the top carry set in some iteration."""
+    out = []
+    for top in (2**63, 2**63 - 1, 2**63 + 1, 2**63 + 2, B - 1):
+        found = 0
+        for _ in range(budget):
+            if found >= per_top:
+                break
+            low = [rng.choice(EDGE + [rng.getrandbits(64)]) for _ in range(n - 1)]
+            if low:
+                low[0] |= 1
+            m = sum(x << (64 * i) for i, x in enumerate(low)) | (top << (64 * (n - 1)))
+            if m % 2 == 0 or m < 3:
+                continue
+            a = m - rng.choice([1, 2, 3, 4, 5, 6])
+            bl = [rng.choice(HIGH + [rng.getrandbits(64)]) for _ in range(n)]
+            b = sum(x << (64 * i) for i, x in enumerate(bl)) % m
+            if rng.random() < 0.5:
+                b &= (1 << (64 * (n - 1))) - 1
+            for x, y in ((a, b), (b, a)):
+                if cios_top_carry(x, y, m, n):
+                    out.append((m, x, y))
+                    found += 1
+    return out
+
+
 def scenarios(tier, rng):
     quick = tier == "quick"
     kern, math = [], []
+    for n in (3, 4, 6):
+        for m, a, b in aimed_carry_cases(rng, n, 12 if quick else 120, 3000 if quick else 40000):
+            inv = (-pow(m, -1, B)) % B
+            kern.append({"g": "kern", "op": "kredc", "a": slice_bytes(a, n), "b": slice_bytes(b, n), "m": slice_bytes(m, n),
+                         "inv": tobytes(inv), "w": W.redc_witness(a, b, m, n), "aim": "top_carry"})
+    for n in (2, 3, 4, 5):
+        for m, a, b in carry_grid(rng, n, (220 if quick else 3000) if n >= 3 else (60 if quick else 600)):
+            inv = (-pow(m, -1, B)) % B
+            kern.append({"g": "kern", "op": "kredc", "a": slice_bytes(a, n), "b": slice_bytes(b, n), "m": slice_bytes(m, n),
+                         "inv": tobytes(inv), "w": W.redc_witness(a, b, m, n)})
     ns = [1, 2, 3, 4, 8, 16] if quick else list(range(1, 17))
     for n in ns:
         maxval = (1 << (64 * n)) - 1
